@@ -13,6 +13,7 @@ import (
 	"time"
 
 	"github.com/hydraide/hydraide/app/core/hydra/swamp/treasure"
+	"github.com/hydraide/hydraide/app/core/hydra/swamp/treasure/guard"
 )
 
 type Beacon interface {
@@ -950,23 +951,72 @@ func (b *beacon) ShiftMany(howMany int) []treasure.Treasure {
 	defer b.mu.Unlock()
 
 	var shiftedTreasures []treasure.Treasure
-	var remainingTreasures []treasure.Treasure
 	counter := 0
-	for _, treasureObj := range b.treasuresByOrder {
-		if counter < howMany {
-			lockID := treasureObj.StartTreasureGuard(true)
-			clonedTreasure := treasureObj.Clone(lockID)
-			treasureObj.ReleaseTreasureGuard(lockID)
-			shiftedTreasures = append(shiftedTreasures, clonedTreasure)
-			delete(b.treasuresByKeys, treasureObj.GetKey())
-			counter++
-		} else {
-			remainingTreasures = append(remainingTreasures, treasureObj)
-		}
-	}
-	b.treasuresByOrder = remainingTreasures
+	b.shiftWalk(func(treasureObj treasure.Treasure, lockID guard.ID) (take bool) {
+		shiftedTreasures = append(shiftedTreasures, treasureObj.Clone(lockID))
+		counter++
+		return true
+	}, func() bool { return counter >= howMany })
 	return shiftedTreasures
 
+}
+
+// shiftWalk visits the ordered records in index order, holding the index lock
+// (the caller has locked b.mu) and, during each visit, the record's guard. The
+// records visit takes are removed from the index. done, when non-nil, is asked
+// before each visit and ends the walk early.
+//
+// The walk never waits for a record guard while it holds the index lock: every
+// writer takes the guard first and the index lock second (Save -> SaveFunction,
+// deleteHandler), so waiting here dead-locks against any concurrent writer of a
+// record the walk reaches. When a guard is busy the index lock is released, the
+// guard is awaited (and released again), the lock is re-taken and the walk
+// starts over from the head of the (possibly changed) slice. Records taken
+// before stay taken (a writer that put one of them back into the index while
+// the lock was released does not get it visited again: the caller is about to
+// remove it from the swamp); visit may see a record it declined before once
+// more.
+func (b *beacon) shiftWalk(visit func(treasureObj treasure.Treasure, guardID guard.ID) (take bool), done func() bool) {
+	var taken map[treasure.Treasure]struct{}
+	for {
+		var busy treasure.Treasure
+		remaining := make([]treasure.Treasure, 0, len(b.treasuresByOrder))
+		for i, treasureObj := range b.treasuresByOrder {
+			if _, again := taken[treasureObj]; again {
+				delete(b.treasuresByKeys, treasureObj.GetKey())
+				continue
+			}
+			if done != nil && done() {
+				remaining = append(remaining, b.treasuresByOrder[i:]...)
+				break
+			}
+			guardID := treasureObj.StartTreasureGuard(false)
+			if guardID == 0 {
+				busy = treasureObj
+				remaining = append(remaining, b.treasuresByOrder[i:]...)
+				break
+			}
+			take := visit(treasureObj, guardID)
+			treasureObj.ReleaseTreasureGuard(guardID)
+			if take {
+				delete(b.treasuresByKeys, treasureObj.GetKey())
+				if taken == nil {
+					taken = make(map[treasure.Treasure]struct{})
+				}
+				taken[treasureObj] = struct{}{}
+			} else {
+				remaining = append(remaining, treasureObj)
+			}
+		}
+		b.treasuresByOrder = remaining
+		if busy == nil {
+			return
+		}
+		b.mu.Unlock()
+		guardID := busy.StartTreasureGuard(true)
+		busy.ReleaseTreasureGuard(guardID)
+		b.mu.Lock()
+	}
 }
 
 func (b *beacon) ShiftExpired(howMany int) []treasure.Treasure {
@@ -977,27 +1027,21 @@ func (b *beacon) ShiftExpired(howMany int) []treasure.Treasure {
 	defer b.mu.Unlock()
 
 	var shiftedTreasures []treasure.Treasure
-	var remainingTreasures []treasure.Treasure
 
 	counter := 0
 	now := time.Now().UTC().UnixNano()
-	for _, treasureObj := range b.treasuresByOrder {
-		lockerID := treasureObj.StartTreasureGuard(true)
+	b.shiftWalk(func(treasureObj treasure.Treasure, lockerID guard.ID) (take bool) {
 		// ExpirationTime == 0 means "never expires" (matches IsExpired);
 		// guard against returning rows whose TTL was cleared after they
 		// were originally indexed.
 		exp := treasureObj.GetExpirationTime()
 		if counter < howMany && exp != 0 && exp < now {
-			clonedTreasure := treasureObj.Clone(lockerID)
-			shiftedTreasures = append(shiftedTreasures, clonedTreasure)
-			delete(b.treasuresByKeys, treasureObj.GetKey())
+			shiftedTreasures = append(shiftedTreasures, treasureObj.Clone(lockerID))
 			counter++
-		} else {
-			remainingTreasures = append(remainingTreasures, treasureObj)
+			return true
 		}
-		treasureObj.ReleaseTreasureGuard(lockerID)
-	}
-	b.treasuresByOrder = remainingTreasures
+		return false
+	}, nil)
 	return shiftedTreasures
 
 }
@@ -1047,27 +1091,21 @@ func (b *beacon) ShiftMatching(howMany int, predicate func(treasure.Treasure) bo
 	}
 
 	var shiftedTreasures []treasure.Treasure
-	var remainingTreasures []treasure.Treasure
 
 	counter := 0
 	matchesBeyondBudget := 0
-	for _, treasureObj := range b.treasuresByOrder {
-		lockerID := treasureObj.StartTreasureGuard(true)
+	b.shiftWalk(func(treasureObj treasure.Treasure, lockerID guard.ID) (take bool) {
 		matched := predicate(treasureObj)
 		if matched && counter < effectiveHowMany {
-			clonedTreasure := treasureObj.Clone(lockerID)
-			shiftedTreasures = append(shiftedTreasures, clonedTreasure)
-			delete(b.treasuresByKeys, treasureObj.GetKey())
+			shiftedTreasures = append(shiftedTreasures, treasureObj.Clone(lockerID))
 			counter++
-		} else {
-			if matched {
-				matchesBeyondBudget++
-			}
-			remainingTreasures = append(remainingTreasures, treasureObj)
+			return true
 		}
-		treasureObj.ReleaseTreasureGuard(lockerID)
-	}
-	b.treasuresByOrder = remainingTreasures
+		if matched {
+			matchesBeyondBudget++
+		}
+		return false
+	}, nil)
 
 	// If Cap is not active and the requested howMany bound the result
 	// (there were more matches we could have shifted), do not signal
@@ -1300,20 +1338,23 @@ func (b *beacon) CloneOrderedTreasures(thenReset bool) []treasure.Treasure {
 
 	atomic.StoreInt32(&b.initialized, 1)
 
+	// Take the member list under the index lock and clone the members after
+	// releasing it: waiting for a record guard while holding the index lock
+	// dead-locks against every writer (guard first, then this lock).
 	b.mu.Lock()
-	defer b.mu.Unlock()
-
-	// clone the slice because we don't want to expose the internal slice
-	clone := make([]treasure.Treasure, len(b.treasuresByOrder))
-	for index, treasureObj := range b.treasuresByOrder {
-		lockerID := treasureObj.StartTreasureGuard(true)
-		clone[index] = treasureObj.Clone(lockerID)
-		treasureObj.ReleaseTreasureGuard(lockerID)
-	}
-
+	members := make([]treasure.Treasure, len(b.treasuresByOrder))
+	copy(members, b.treasuresByOrder)
 	if thenReset {
 		b.treasuresByOrder = nil
 		b.treasuresByKeys = make(map[string]treasure.Treasure)
+	}
+	b.mu.Unlock()
+
+	clone := make([]treasure.Treasure, len(members))
+	for index, treasureObj := range members {
+		lockerID := treasureObj.StartTreasureGuard(true)
+		clone[index] = treasureObj.Clone(lockerID)
+		treasureObj.ReleaseTreasureGuard(lockerID)
 	}
 
 	return clone
@@ -1325,19 +1366,22 @@ func (b *beacon) CloneUnorderedTreasures(thenReset bool) map[string]treasure.Tre
 
 	atomic.StoreInt32(&b.initialized, 1)
 
+	// Take the member list under the index lock and clone the members after
+	// releasing it (see CloneOrderedTreasures).
 	b.mu.Lock()
-	defer b.mu.Unlock()
-
-	treasuresClone := make(map[string]treasure.Treasure)
-	for key, value := range b.treasuresByKeys {
-		guardID := value.StartTreasureGuard(true)
-		treasuresClone[key] = value.Clone(guardID)
-		value.ReleaseTreasureGuard(guardID)
-	}
-
+	members := make(map[string]treasure.Treasure, len(b.treasuresByKeys))
+	maps.Copy(members, b.treasuresByKeys)
 	if thenReset {
 		b.treasuresByOrder = nil
 		b.treasuresByKeys = make(map[string]treasure.Treasure)
+	}
+	b.mu.Unlock()
+
+	treasuresClone := make(map[string]treasure.Treasure, len(members))
+	for key, value := range members {
+		guardID := value.StartTreasureGuard(true)
+		treasuresClone[key] = value.Clone(guardID)
+		value.ReleaseTreasureGuard(guardID)
 	}
 
 	return treasuresClone
